@@ -32,8 +32,13 @@ Enc(v) == IF IsInf(v) THEN -1 ELSE v
 
 ----------------------------------------------------------------------------
 \* kind "dist": obs[r] is what route r returned for case c
+\* use_pruning is documented as "the same as passing ub_euclidean() to max_dist": the optimum, or infinity when it
+\* exceeds the Euclidean bound (never, where that bound is valid: C03) or a max_dist given in addition
 DistExpected(rec) ==
-    IF rec.prune THEN Enc(Opt(rec.c)) ELSE Enc(DistSpec(rec.c))
+    IF rec.prune
+    THEN LET o == Opt(rec.c)
+         IN Enc(IF IsInf(o) \/ Exceeds(rec.c, o) \/ o > ED(rec.c) THEN Inf ELSE o)
+    ELSE Enc(DistSpec(rec.c))
 
 JudgeDist(rec) ==
     LET e == DistExpected(rec)
@@ -63,7 +68,8 @@ JudgeBounds(rec) ==
         eed == ED(c)
         badlb == {r \in 1..Len(rec.lb) : rec.lb[r] # elb}
         baded == {r \in 1..Len(rec.ed) : rec.ed[r] # eed}
-        badub == {r \in 1..Len(rec.ub) : rec.ub[r] # eed}
+        \* only_ub through a distance routine: the bound of a distance that is infinite by max_length_diff is infinite
+        badub == {r \in 1..Len(rec.ub) : rec.ub[r] # (IF LengthOK(c) THEN eed ELSE -1)}
         dtw == rec.dtw
         penfree == rec.dtw0
     IN IF badlb # {} THEN Fail(rec.id, rec.lbroutes[SetMin(badlb)])
